@@ -28,7 +28,9 @@
        gconns gnotifs nidx idx^nidx
        dir 0: G dials R at the listed addresses; dir 1: R dials G, the single
        listed address is R's source address as G sees it.
-       tpt = transport + 16 * opt; transport 0 tcp 1 quic 2 ws 3 webtransport (informative);
+       tpt = transport + 16 * opt; transport 0 tcp 1 quic 2 ws 3 webtransport, 4 a fake circuit
+       transport behind the real swarm dial path, 5 the real gatedMaListener.Accept over a fake
+       manet listener (informative);
        opt = what G's dial context carries: 0 plain, 1 WithForceDirectDial,
        2 WithSimultaneousConnect(client), 3 WithAllowLimitedConn, 4 WithNoDial (NewStream),
        5 (dir 1 only) a server-role QUIC hole punch of G towards R is in flight while the
@@ -36,6 +38,7 @@
        pipeline events recorded by the delegating gater / counting transport:
          1 p allow 0   InterceptPeerDial        2 idx allow 0  InterceptAddrDial (address idx)
          3 idx 0 0     transport Dial (idx)     4 allow 0 0    InterceptAccept
+         5 0 0 0       the gated listener returned the connection (it goes on to the handshake)
          6 inb p allow InterceptSecured         7 allow 0 0    InterceptUpgraded
        gconns / gnotifs: G's ConnsToPeer(R) maximum and Connected notifications;
        idx^nidx: address index of each admitted connection on G (-1 unknown).
@@ -449,6 +452,7 @@ Fixpoint conform_evs (m : rules) (x : e2e) (mp : list pev) (i : Z) (evs : list p
         | None =>
             match e with
             | PvTransportDial j => negb (existsb (is_tdial_to j) mp)
+            | PvHandshake => negb (existsb is_handshake mp)
             | _ => false
             end
         end in
@@ -698,6 +702,7 @@ Definition dec_pev (c a b d : Z) : option pev :=
   else if c =? 2 then (if 0 <=? a then Some (PvAddrDial (Z.to_nat a) (zbool b)) else None)
   else if c =? 3 then (if 0 <=? a then Some (PvTransportDial (Z.to_nat a)) else None)
   else if c =? 4 then Some (PvAccept (zbool a))
+  else if c =? 5 then Some PvHandshake
   else if c =? 6 then Some (PvSecured (zbool a) b (zbool d))
   else if c =? 7 then Some (PvUpgraded (zbool a))
   else None.
